@@ -59,9 +59,6 @@ RT_FN = 'c17_rtree_case'
 RT_TY = 'nat * list (list (option Z)) * list nat * list nat * nat * list (list Z)'
 RT_RES = 'list (list nat * list nat * list nat) * bool'
 
-KNOWN_INF_POLYGON = 'inf-only-polygon-intersects-points'
-# classes of inert polygons with infinite vertices (all infinite / infinite next to NaN)
-INF_CLASSES = ('inf', 'mixed')
 BASE_LABEL = 100
 INERT_LABEL = 9000
 
@@ -337,15 +334,21 @@ def fam_inert_shapes(cx):
         if t.kind != 'ring':
             ok, r = cx.guard(f'intersects:{t.kind}', lambda: np.asarray(probe.intersects(s)))
             if ok and r.any():
-                if t.kind in ('polygon', 'multipolygon') and t.cls[i] in INF_CLASSES:
-                    # 'mixed' (NaN next to +-inf vertices) is the same recorded behaviour: the
-                    # ray test of point_intersects_polygon against infinite vertices
-                    cx.fail(KNOWN_INF_POLYGON, 'a point intersects a polygon / multipolygon '
-                            'without any finite coordinate (infinite' +
-                            (' and NaN' if t.cls[i] == 'mixed' else '') + ' vertices)', row=i)
-                else:
-                    cx.fail(f'inert-shape-true:intersects:{_inert_tag(t, i)}',
-                            'a point intersects an inert shape', row=i)
+                cx.fail(f'inert-shape-true:intersects:{_inert_tag(t, i)}',
+                        'a point intersects an inert shape', row=i)
+            # the scalar form: each probe point against the inert shape
+            for j in range(len(probe)):
+                ok, r1 = cx.guard(f'scalar-intersects:{t.kind}', lambda: probe[j].intersects(s))
+                if ok and bool(r1):
+                    cx.fail(f'inert-shape-true:scalar-intersects:{_inert_tag(t, i)}',
+                            'a point, as a scalar, intersects an inert shape', row=i, probe=j)
+                    break
+            # the positions form
+            inds = np.arange(len(probe) - 1, -1, -1, dtype='int64')
+            ok, r2 = cx.guard(f'intersects[inds]:{t.kind}', lambda: np.asarray(probe.intersects(s, inds)))
+            if ok and r2.any():
+                cx.fail(f'inert-shape-true:intersects-inds:{_inert_tag(t, i)}',
+                        'a point addressed through inds intersects an inert shape', row=i)
         for box in P['boxes']:
             ok, r = cx.guard(f'scalar-intersects_bounds:{t.kind}', lambda: s.intersects_bounds(tuple(box)))
             if ok and bool(r):
@@ -518,29 +521,8 @@ def _pairs(df, how):
                   key=lambda p: (p[0] is None, p[0] or 0, p[1] is None, p[1] or 0))
 
 
-def _inf_polygons(rt, which):
-    """labels of the inf-only polygon / multipolygon rows of the right frame"""
-    if which != 'full' or rt.kind not in ('polygon', 'multipolygon'):
-        return set()
-    return set(l for l, c in zip(rt.full_labels, rt.cls) if c in INF_CLASSES)
-
-
-def _check_join(cx, how, got, exp, l_inert, r_inert, where, r_infpoly=(), **extra):
+def _check_join(cx, how, got, exp, l_inert, r_inert, where, **extra):
     """got = pairs with inert rows present, exp = pairs of the base frames"""
-    r_infpoly = set(r_infpoly)
-    if any(p[1] in r_infpoly and p[0] is not None for p in got):
-        # recorded finding: every point "intersects" an all-infinite polygon; reported under its
-        # one signature, then those right rows are left out and everything else is still checked
-        cx.fail(KNOWN_INF_POLYGON, 'sjoin matches left points with a right polygon / multipolygon '
-                'whose coordinates are all infinite', how=how, **extra)
-        before = got
-        got = [p for p in got if p[1] not in r_infpoly]
-        if how == 'left':
-            # a left row whose only partners were such rows would have been kept unmatched
-            left_now = set(p[0] for p in got)
-            got = got + [(l, None) for l in sorted(set(p[0] for p in before) - left_now)]
-            got.sort(key=lambda p: (p[0] is None, p[0] or 0, p[1] is None, p[1] or 0))
-        r_inert = set(r_inert) - r_infpoly
     matched = [p for p in got if (p[0] in l_inert and p[1] is not None)
                or (p[1] in r_inert and p[0] is not None)]
     if matched:
@@ -594,8 +576,7 @@ def fam_sjoin(cx):
                 return
             if not _check_join(cx, how, _pairs(got, how), exp,
                                l_inert if lw == 'full' else set(),
-                               r_inert if rw == 'full' else set(), where,
-                               r_infpoly=_inf_polygons(rt, rw), right_kind=rt.kind):
+                               r_inert if rw == 'full' else set(), where, right_kind=rt.kind):
                 return
 
 
@@ -693,8 +674,7 @@ def fam_dask(cx):
                 if not ok:
                     return
                 if not _check_join(cx, how, _pairs(got, how), exp, inert_labels, r_inert, 'dask',
-                                   r_infpoly=_inf_polygons(rt, 'full'), right_kind=rt.kind,
-                                   chunk=chunk):
+                                   right_kind=rt.kind, chunk=chunk):
                     return
         # pack_partitions: every row kept, the other rows' Hilbert keys unchanged.  A call that
         # raises (dask's repartition assertion when many rows share one key: C09's recorded
@@ -969,8 +949,10 @@ def run(rep):
 
 
 def witness(rep):
-    """always-run corpus: the recorded finding (all-infinite polygon vs points), directly and
-    through sjoin, so that its KNOWN-FINDING line is printed by every run"""
+    """always-run corpus: an all-infinite polygon (no finite coordinate, NaN bounds: an ordinary
+    inert element; it used to be reported as holding every point, repaired in /repo 2a2a476)
+    against points lying inside its 'ring', directly (array, inds, scalar forms) and through
+    sjoin"""
     inf = float('inf')
     sq = [[-1.0, -1.0, 2.0, -1.0, 2.0, 2.0, -1.0, 2.0, -1.0, -1.0]]
     ip = [[-inf, -inf, inf, -inf, inf, inf, -inf, -inf]]
@@ -981,9 +963,14 @@ def witness(rep):
          'p': 5, 'hilbert_tb': [-8.0, -8.0, 8.0, 8.0], 'cx_pages': [2],
          'probe_points': [[0.0, 0.0], [1.0, 1.0], [5.0, 4.0]], 'sjoin_sides': ['right'],
          'other': pts.meta(), 'pack': None}
-    for fam in ('inert_shapes', 'sjoin'):
-        FAMILIES[fam](Ctx(rep, t, fam, P))
-        rep.evaluations += 1
+    mixed = [[-inf, float('nan'), inf, float('nan'), inf, inf, -inf, float('nan')]]
+    tm = Trial('multipolygon', [[sq]], [[ip], [sq], [mixed], [ip, mixed]], [True, False, True, True],
+               True, 'interleaved', 2)
+    tp = Trial('polygon', [sq], [sq, ip, mixed, ip + mixed], [False, True, True, True], True, 'last', 2)
+    for tt in (t, tp, tm):
+        for fam in ('inert_shapes', 'sjoin'):
+            FAMILIES[fam](Ctx(rep, tt, fam, P))
+            rep.evaluations += 1
     rep.count('witness:inf-polygon')
     # a frame of inert points only, one of them infinite, queried with every end omitted
     # (total_bounds is NaN, so the query box is NaN)
